@@ -144,4 +144,7 @@ def run(db, chk):
                            {k: a[k] for k in ("receiver", "distance")}, {k: b[k] for k in ("receiver", "distance")})
                            if not same else "donor registration of the receiver is not exactly one entry"),
                        sample=(n_sc % 211 == 2), extra={"unit": uname})
+    chk.absorb(db, "C09", {"C09-P2"}, "C04-S3", "base levels and mask in force are exactly those last set: the "
+               "setters replace their state as a whole (shared with C09-P2)",
+               pred=lambda o: "set_base_levels" in o["instance"] or "set_mask" in o["instance"], min_instances=3)
     chk.count_scenarios(n_sc, True)
